@@ -382,6 +382,48 @@ pub fn c16(h: &mut H) {
             }
         }
     }
+    // ONE masking draw of a larger-interval sub-proof at the very top of its range (w = 2^(t+l)*b_2 - 1, the other
+    // draws as recorded): D_1 = w + x*c overshoots the window, the prover has to restart with fresh draws, and what it
+    // returns verifies. (If the bound computed here were too large, the model's tape contract would refuse the tape and
+    // the correspondence would say so on the unchanged tree.)
+    {
+        let a = Integer::from(12345);
+        let b = Integer::from(12345 + 1000);
+        let x = Integer::from(12345 + 555);
+        let (t, l) = (128u32, 40u32);
+        let tt = tt_of(&a, &b);
+        let b2 = Integer::from(Integer::from(pow2(tt) * Integer::from(&b - &a)).sqrt() * 2u32);
+        let w_max = Integer::from(pow2(t + l) * &b2) - 1u32;
+        let c = commit1(h, &ck, &x);
+        let (rp0, tape) = rprove(h, &x, &c, &g, &hh, &n, &a, &b, vec![]);
+        if rp0.ok().is_some() && tape.len() == 14 {
+            // likewise the two draws that split the commitment randomness (r_a_1, r_b_1, draws 0 and 1) at the top of
+            // their range 2^(s+T)*n - 1: the other half then falls outside its bound and the prover has to redraw
+            let r_max = Integer::from(pow2(40 + tt) * &n) - 1u32;
+            for idx in [10usize, 12, 0, 1] {
+                // (r_a_2 = r - r_a_1 leaves the bound for r_a_1 = -max, r_b_2 = -r - r_b_1 for r_b_1 = +max)
+                let top = if idx >= 10 { w_max.clone() } else if idx == 0 { Integer::from(-&r_max) } else { r_max.clone() };
+                // (the draws at these positions have about bits(top) bits)
+                if tape[idx].1.clone().abs().significant_bits() + 8 < top.significant_bits() || tape[idx].1.clone().abs() > top.clone().abs() { continue; }
+                // (the tape is cut after the boundary value: a restart shifts every later draw, and the recorded values
+                // would then be injected into draws with other ranges)
+                let mut t2 = tape[..=idx].to_vec();
+                t2[idx].1 = top.clone();
+                let (rp2, used) = rprove(h, &x, &c, &g, &hh, &n, &a, &b, t2);
+                let pid = h.last();
+                h.stat("C16.boundary_w");
+                h.stat(if used.len() > 14 { "C16.boundary_w.prover_restarted" } else { "C16.boundary_w.no_restart" });
+                h.expect(used.len() > 14, "C16.boundary_selfcheck", "the injected boundary draw did not make the prover restart: either the prover no longer redraws when a part falls outside its bound, or the bound computed by the harness no longer mirrors the implementation", &[pid]);
+                match rp2.ok().cloned() {
+                    Some(rp2) => {
+                        let v = rverify(h, &rp2, &g, &hh, &n, &a, &b);
+                        h.expect(v.is_true(), "C16.verify_boundary_w", "an honest range proof whose masking draw w was at the top of its range does not verify (the prover did not restart)", &[pid, h.last()]);
+                    }
+                    None => h.expect(false, "C16.prove", "prove panicked with a masking draw at the top of its range", &[pid]),
+                }
+            }
+        }
+    }
     // hash values with LEADING ZERO octets (one hash in 256): honest proofs whose Fiat-Shamir challenges happen to be
     // short must verify like any other. Proofs are generated with the production randomness until a few such
     // challenges have been seen (about one proof in 64 has one).
